@@ -1079,3 +1079,74 @@ Section Run.
       exists g2, m2. auto.
   Qed.
 End Run.
+
+(* ---------- fuel: the source only shrinks, so fuel that is enough at the start is enough at every step ---------- *)
+Lemma read_loop_shrinks s cp i n : forall fuel empty c acc wl c' acc' wl' e m,
+  cur_of (src_at s c) = c ->
+  read_loop (sfinal s) (swith s) cp i n fuel empty c acc wl = (c', acc', wl', e, m) ->
+  cur_of (src_at s c') = c' /\ (cur_measure c' <= cur_measure c)%nat.
+Proof.
+  induction fuel as [|fuel IH]; intros empty c acc wl c' acc' wl' e m HP H.
+  - cbn [read_loop] in H. inversion H; subst. split; [exact HP|lia].
+  - rewrite read_loop_S in H. destruct (Nat.leb max_empty empty); [inversion H; subst; split; [exact HP|lia]|].
+    cbv zeta in H.
+    destruct (cur_read (sfinal s) (swith s) c (cp - (i + wl))) as [[[bs1 m1] e1] c1] eqn:Hrd.
+    assert (Hwf : cur_wf c) by (rewrite <- HP; apply cur_of_wf).
+    pose proof (cur_read_inv _ _ _ _ _ _ _ _ Hwf Hrd) as (_ & _ & Hrest & _ & _ & Hchunks & _ & _).
+    assert (HP1 : cur_of (src_at s c1) = c1).
+    { pose proof (cur_read_src_read (src_at s c) (cp - (i + wl)) bs1 m1 e1 c1) as X.
+      cbn [src_at sfinal swith] in X. rewrite HP in X. destruct (X Hrd) as [_ X2]. exact X2. }
+    assert (Hm1 : (cur_measure c1 <= cur_measure c)%nat).
+    { unfold cur_measure. assert (length (c_rest c) = length bs1 + length (c_rest c1))%nat by (rewrite Hrest; apply app_length).
+      destruct Hchunks as [(Hc & Hc1 & _)|(x & Hc & _)]; rewrite Hc; [rewrite Hc1|]; cbn [length]; lia. }
+    destruct e1 as [ev|]; [inversion H; subst; auto|].
+    destruct (n <=? wl + m1)%N; [inversion H; subst; auto|].
+    destruct (0 <? m1)%N; destruct (IH _ _ _ _ _ _ _ _ _ HP1 H) as [A B]; split; try exact A; lia.
+Qed.
+
+Lemma acquire_fuel_mono st n : (loop_fuel (cur_of (src (fst (acquire st n)))) <= loop_fuel (cur_of (src st)))%nat.
+Proof.
+  unfold acquire. destruct (n <=? len (win st))%N; [cbn [fst]; lia|].
+  rewrite acquire_slow_phases. destruct (rerr st); [cbn [fst]; lia|].
+  set (st2 := grow_phase (alloc_phase st n) n).
+  assert (Hs : src st2 = src st).
+  { unfold st2, grow_phase, alloc_phase, set_st. destruct (cap st =? 0)%N; cbn [cap ri src];
+      match goal with |- context [if ?b then _ else _] => destruct b end; reflexivity. }
+  unfold hs_loop. rewrite Hs.
+  destruct (read_loop (sfinal (src st)) (swith (src st)) (cap st2) (ri st2) n (loop_fuel (cur_of (src st))) 0
+              (cur_of (src st)) [] (len (win st2))) as [[[[c' acc'] wl'] e] m] eqn:E.
+  cbn [fst set_st src].
+  destruct (read_loop_shrinks (src st) _ _ _ _ _ _ _ _ _ _ _ _ _ ltac:(rewrite src_at_cur_of; reflexivity) E) as [HP Hm].
+  rewrite HP. unfold loop_fuel, cur_measure in *. lia.
+Qed.
+
+Lemma r_step_fuel_mono st o : (loop_fuel (cur_of (src (fst (r_step st o)))) <= loop_fuel (cur_of (src st)))%nat.
+Proof.
+  destruct o as [n|n|n|k| |]; cbn [r_step fst].
+  - unfold r_next. destruct (n <? 0); [cbn [fst]; lia|]. pose proof (acquire_fuel_mono st (Z.to_N n)) as H.
+    destruct (acquire st (Z.to_N n)) as [st' m]. cbn [fst] in H. destruct (m <? Z.to_N n)%N; cbn [fst advance set_st src]; exact H.
+  - unfold r_peek. destruct (n <? 0); [cbn [fst]; lia|]. pose proof (acquire_fuel_mono st (Z.to_N n)) as H.
+    destruct (acquire st (Z.to_N n)) as [st' m]. cbn [fst] in H. destruct (m <? Z.to_N n)%N; cbn [fst]; exact H.
+  - unfold r_skip. destruct (n <? 0); [cbn [fst]; lia|]. pose proof (acquire_fuel_mono st (Z.to_N n)) as H.
+    destruct (acquire st (Z.to_N n)) as [st' m]. cbn [fst] in H. destruct (m <? Z.to_N n)%N; cbn [fst advance set_st src]; exact H.
+  - unfold r_readbinary. pose proof (acquire_fuel_mono st k) as H.
+    destruct (acquire st k) as [st' m]. cbn [fst advance set_st src] in *. exact H.
+  - lia.
+  - unfold r_release. destruct (len (win st) =? 0)%N.
+    + destruct (stats_update st (cap st)). cbn [src]. lia.
+    + destruct (ro st); cbn [set_st src]; lia.
+Qed.
+
+(* sizes small at every step (no fuel condition) *)
+Fixpoint run_small (st : rstate) (ops : list rop) : Prop :=
+  match ops with
+  | [] => True
+  | op :: r => st_small st /\ op_small op /\ run_small (fst (r_step st op)) r
+  end.
+
+Lemma run_ok_of_small fuel : forall ops st, (loop_fuel (cur_of (src st)) <= fuel)%nat -> run_small st ops -> run_ok fuel st ops.
+Proof.
+  induction ops as [|o r IH]; intros st Hf H; cbn [run_small run_ok] in *; [exact I|].
+  destruct H as (H1 & H2 & H3). split; [exact H1|]. split; [exact H2|]. split; [exact Hf|].
+  apply IH; [|exact H3]. pose proof (r_step_fuel_mono st o). lia.
+Qed.
